@@ -361,7 +361,11 @@ func main() {
 						if !c.Mine() || c.Expired() {
 							continue
 						}
-						c.Explore(buildScenario(ic, b), ic)
+						bb := b
+						if len(ic.Gaps) >= 3 {
+							bb = b - 1 // three-message timelines: one deviation less
+						}
+						c.Explore(buildScenario(ic, bb), ic)
 					}
 				},
 				Replay: func(c *explore.EnumCtx, desc json.RawMessage) {
